@@ -388,6 +388,26 @@ def compare(it, op, a, b, node):
             return op is ast.NotEq
         r = sym.And(*[_as_cond(it, compare(it, ast.Eq, x, y, node), node) for x, y in zip(a, b)])
         return r if op is ast.Eq else sym.Not(r)
+    if isinstance(a, (SFmt, str)) and isinstance(b, (SFmt, str)) and op in (ast.Eq, ast.NotEq):
+        # structured text with opaque pieces.  The same pieces in the same order are the same text.  Otherwise the
+        # answer is only known under the case flag `opaque_texts_distinct` (the shape states that different opaque
+        # pieces stand for different texts, e.g. the literals of different constants); without it: outside the subset.
+        pa = a.parts if isinstance(a, SFmt) else [a]
+        pb = b.parts if isinstance(b, SFmt) else [b]
+
+        def same_piece(x, y):
+            if isinstance(x, str) or isinstance(y, str):
+                return isinstance(x, str) and isinstance(y, str) and x == y
+            if isinstance(x, Opaque) and isinstance(y, Opaque):
+                return x is y or (x.tag == y.tag and len(x.deps) == len(y.deps) and all(p is q for p, q in zip(x.deps, y.deps)))
+            return x is y
+
+        same = len(pa) == len(pb) and all(same_piece(x, y) for x, y in zip(pa, pb))
+        if same:
+            return op is ast.Eq
+        if getattr(it, "opaque_texts_distinct", False) and all(isinstance(p, (str, Opaque)) for p in pa + pb):
+            return op is ast.NotEq
+        it.outside("comparison of symbolic text", node)
     if isinstance(a, (SFmt, str)) and isinstance(b, (SFmt, str)):
         it.outside("comparison of symbolic text", node)
     m = _find_dunder(it, a, fwd)
